@@ -33,7 +33,7 @@ func init() {
 		Run:   runC09Model,
 		Rule: "seeded op sequences (append/async+sync/append-and-sync/bad-append/truncate incl. segment boundaries/clear/reopen) on segment sizes 128B..4KiB " +
 			"vs a list model compared after every step (first/last, forward, reverse, mid reader); non-trivial = the run rolled over >=1 segment and did >=1 truncate or reopen; distinct = op-kind sequence + segment size",
-		MinNontrivial: func(tier string) int { return tierN(tier, 100, 5000) },
+		MinNontrivial:    func(tier string) int { return tierN(tier, 100, 5000) },
 		RequiredCounters: []string{"appends", "truncates", "truncates_cross_segment", "reopens", "rollovers", "entries_compared"},
 	})
 	core.Register(&core.Part{
